@@ -419,7 +419,21 @@ pub fn run_scheduled(plan: &Plan, rng: &mut Rng, replay_choices: Option<&[usize]
         report_result: plan.report_result,
         failing_flushes: plan.failing_flushes.clone(),
     };
-    let stream = RecStream { log: log.clone(), script, gate: None, flush_calls: 0 };
+    let futs: Arc<Mutex<Vec<(u64, FlushWait, bool)>>> = Arc::new(Mutex::new(vec![]));
+    let before_call: Arc<dyn Fn() + Send + Sync> = {
+        let (futs, log) = (futs.clone(), log.clone());
+        Arc::new(move || {
+            let mut f = futs.lock().unwrap();
+            f.sort_by_key(|x| x.0);
+            for (w, fut, done) in f.iter_mut() {
+                if !*done && poll_once(fut) {
+                    *done = true;
+                    log.lock().unwrap().push(Ev::Wake(*w));
+                }
+            }
+        })
+    };
+    let stream = RecStream { log: log.clone(), script, gate: None, flush_calls: 0, before_call: Some(before_call) };
     let rec = LogRecorder { log: log.clone(), counters: counters.clone(), queue_len: queue_len.clone() };
     let builder = BackgroundQueueBuilder::new()
         .capacity(plan.cap)
@@ -435,7 +449,6 @@ pub fn run_scheduled(plan: &Plan, rng: &mut Rng, replay_choices: Option<&[usize]
         let (b, j) = builder.build_boxed(stream);
         (H::Boxed(b), j)
     };
-    let futs: Arc<Mutex<Vec<(u64, FlushWait, bool)>>> = Arc::new(Mutex::new(vec![]));
     let mut ctl = Ctl {
         core: core.clone(),
         run,
@@ -592,12 +605,13 @@ pub fn run_scheduled(plan: &Plan, rng: &mut Rng, replay_choices: Option<&[usize]
                 }
             }
             None => {
-                // the writer gets `writer_bias` shares, every producer one
-                let total = runnable.iter().map(|&i| if i == 0 { writer_bias.max(1) } else { 4 }).sum::<u64>();
+                // the writer gets `writer_bias` shares, every producer four (bias 0: a writer that hardly runs)
+                let pw = if writer_bias == 0 { 40 } else { 4 };
+                let total = runnable.iter().map(|&i| if i == 0 { writer_bias.max(1) } else { pw }).sum::<u64>();
                 let mut x = rng.below(total);
                 let mut pick = runnable[0];
                 for &i in &runnable {
-                    let w = if i == 0 { writer_bias.max(1) } else { 4 };
+                    let w = if i == 0 { writer_bias.max(1) } else { pw };
                     if x < w {
                         pick = i;
                         break;
